@@ -255,7 +255,7 @@ def judgeE2E (op : String) (fs : List String) (out : List String) : String :=
 def judge : Handler
   | "fwd" :: fs, out => judgeFwd fs out
   | "e2e" :: fs, out => judgeE2E "e2e" fs out
-  | "web" :: fs, out => judgeE2E "e2e" fs out
+  | "web" :: fs, out => judgeE2E "web" fs out
   | "real" :: fs, out => judgeE2E "real" fs out
   | "multi" :: fs, out => judgeE2E "multi" fs out
   | _, _ => "BAD c01 line"
